@@ -231,6 +231,29 @@ func checkC15(t TB, c HistoryCase) c15Outcome {
 			if fp2 := enc.Fingerprint(abc, nil, nil); fp2 != fp1 {
 				failf(t, P, K, c, "call %d: pixels/accessors changed after the caller overwrote its input buffer", i)
 			}
+			// the same, but the buffer is overwritten BEFORE anything is read from the barcode (lazily evaluated
+			// accessors or pixels would otherwise be frozen by the first read)
+			buf2 := append([]byte(nil), s.Content...)
+			var lazy barcode.Barcode
+			lpv := try(func() {
+				if s.Scheme == nil {
+					lazy, aerr = aztec.Encode(buf2, s.A, s.B)
+				} else {
+					lazy, aerr = aztec.EncodeWithColor(buf2, s.A, s.B, s.Scheme.Scheme())
+				}
+			})
+			if lpv != nil || aerr != nil || nilBarcode(lazy) {
+				failf(t, P, K, c, "call %d: third aztec encode failed: %v %v", i, lpv, aerr)
+			}
+			for j := range buf2 {
+				buf2[j] = ^buf2[j]
+			}
+			if got := lazy.Content(); got != string(s.Content) {
+				failf(t, P, K, c, "call %d: the input buffer was overwritten right after Encode returned, before anything was read from the barcode: Content() is %q (barcode is not a snapshot)", i, truncS([]byte(got)))
+			}
+			if fp3 := enc.Fingerprint(lazy, nil, nil); fp3 != inproc[i] {
+				failf(t, P, K, c, "call %d: the input buffer was overwritten right after Encode returned, before anything was read from the barcode: pixels/accessors differ from those of the same call", i)
+			}
 		}
 	}
 	o.rsDegrees = len(degs)
@@ -329,6 +352,14 @@ func genHistory(t *rapid.T) HistoryCase {
 			return da > db
 		})
 	}
+	if rapid.IntRange(0, 2).Draw(t, "relative") == 0 {
+		// a near-twin right after (or before) one of the calls: the same content with one parameter changed, or the same
+		// parameters with a content of the same length and class (state remembered under a key that leaves something out)
+		k := rapid.IntRange(0, len(c.Calls)-1).Draw(t, "relof")
+		r := relativeOf(t, c.Calls[k])
+		at := k + rapid.IntRange(0, 1).Draw(t, "relafter")
+		c.Calls = append(c.Calls[:at], append([]EncSpec{r}, c.Calls[at:]...)...)
+	}
 	if rapid.IntRange(0, 3).Draw(t, "repeat") == 0 && len(c.Calls) > 1 {
 		c.Calls = append(c.Calls, c.Calls[0])
 	}
@@ -346,6 +377,71 @@ func genHistory(t *rapid.T) HistoryCase {
 		c.Calls = append(c.Calls, s1, s2, s1)
 	}
 	return c
+}
+
+// relativeOf derives a near-twin of a call.
+func relativeOf(t *rapid.T, s EncSpec) EncSpec {
+	r := s
+	r.Content = append(BStr(nil), s.Content...)
+	kind := rapid.IntRange(0, 4).Draw(t, "relkind")
+	if kind <= 1 { // one parameter changed
+		switch s.Fam {
+		case "qr":
+			if rapid.Bool().Draw(t, "rellevel") {
+				r.A = (s.A + 1 + rapid.IntRange(0, 2).Draw(t, "dl")) % 4
+			} else if s.B == 0 {
+				r.B = rapid.IntRange(1, 3).Draw(t, "relmode")
+			} else {
+				r.B = 0
+			}
+		case "aztec":
+			if rapid.Bool().Draw(t, "relpct") {
+				r.A = s.A + rapid.SampledFrom([]int{1, 10, 27}).Draw(t, "dp")
+			} else if s.B == 0 {
+				r.B = rapid.SampledFrom([]int{-4, 4, 7, 12}).Draw(t, "rellayers")
+			} else {
+				r.B = 0
+			}
+		case "pdf417":
+			r.A = (s.A + 1) % 9
+		case "code39", "code93":
+			if rapid.Bool().Draw(t, "relf1") {
+				r.F1 = !s.F1
+			} else {
+				r.F2 = !s.F2
+			}
+		case "code128":
+			r.Fam = "code128nc"
+		case "code128nc":
+			r.Fam = "code128"
+		case "2of5":
+			r.Fam = "itf"
+		case "itf":
+			r.Fam = "2of5"
+		default:
+			kind = 2
+		}
+		if kind <= 1 {
+			if rapid.IntRange(0, 3).Draw(t, "relcol") == 0 {
+				r.Scheme = genScheme(t)
+			}
+			return r
+		}
+	}
+	n := len(r.Content)
+	switch {
+	case n == 0:
+	case kind == 2: // reversed
+		for i, j := 0, n-1; i < j; i, j = i+1, j-1 {
+			r.Content[i], r.Content[j] = r.Content[j], r.Content[i]
+		}
+	case kind == 3: // rotated by one
+		r.Content = append(r.Content[1:], r.Content[0])
+	default: // two characters swapped
+		i, j := rapid.IntRange(0, n-1).Draw(t, "swi"), rapid.IntRange(0, n-1).Draw(t, "swj")
+		r.Content[i], r.Content[j] = r.Content[j], r.Content[i]
+	}
+	return r
 }
 
 func TestC15Rapid(t *testing.T) {
